@@ -14,12 +14,19 @@ from concurrent.futures import ProcessPoolExecutor
 
 ROOT = os.path.dirname(os.path.dirname(os.path.abspath(__file__)))
 sys.path.insert(0, os.path.join(ROOT, 'tools'))
-CACHE = os.path.join(ROOT, '.cache')
+MAIN_CACHE = os.path.join(ROOT, '.cache')
 COQ = os.path.join(ROOT, 'coq')
 OCAML = os.path.join(ROOT, 'ocaml')
-HARNESS = os.path.join(ROOT, 'harness')
+# The registered checks always run against /repo. For testing the checks themselves against many changed copies of the
+# repository in parallel (tools/mutate.py, seeded changes) without touching /repo, VERIF_REPO names another working tree;
+# VERIF_CACHE (required then) holds that run's harness build, work files, evidence and replays. In that mode nothing
+# under /verif is written: the generated Coq files are produced in the cache and only COMPARED with the committed ones.
+REPO = os.environ.get('VERIF_REPO', '/repo')
+ALT = os.path.realpath(REPO) != '/repo'
+CACHE = os.environ['VERIF_CACHE'] if ALT else MAIN_CACHE
+OUTROOT = CACHE if ALT else ROOT
+HARNESS = os.path.join(CACHE, 'harness') if ALT else os.path.join(ROOT, 'harness')
 TARGET = os.path.join(CACHE, 'target')
-REPO = '/repo'
 NPROC = min(16, os.cpu_count() or 4)
 
 from props import PROPS, SUITES, EXTRACT_DEPS, CONSTS  # noqa: E402
@@ -41,8 +48,9 @@ def log(*a):
 
 class Lock:
     def __init__(self, name):
-        os.makedirs(CACHE, exist_ok=True)
-        self.path = os.path.join(CACHE, name + '.lock')
+        base = CACHE if name == 'cargo' else MAIN_CACHE      # the Coq and driver builds are shared by every run
+        os.makedirs(base, exist_ok=True)
+        self.path = os.path.join(base, name + '.lock')
 
     def __enter__(self):
         self.f = open(self.path, 'w')
@@ -178,11 +186,27 @@ def build_driver():
         return 0, ''
 
 
+def alt_harness():
+    """VERIF_REPO mode: a copy of harness/ whose path dependencies point at that working tree"""
+    os.makedirs(HARNESS, exist_ok=True)
+    toml = open(os.path.join(ROOT, 'harness', 'Cargo.toml')).read().replace('/repo/', REPO.rstrip('/') + '/')
+    tp = os.path.join(HARNESS, 'Cargo.toml')
+    if not os.path.exists(tp) or open(tp).read() != toml:
+        open(tp, 'w').write(toml)
+    src = os.path.join(HARNESS, 'src')
+    if not os.path.islink(src):
+        os.symlink(os.path.join(ROOT, 'harness', 'src'), src)
+
+
 def build_harness(bins, release=False):
+    if ALT:
+        alt_harness()
     with Lock('cargo'):
         lock = os.path.join(HARNESS, 'Cargo.lock')
+        lock_src = next((x for x in (os.path.join(REPO, 'Cargo.lock'), os.path.join(ROOT, 'harness', 'Cargo.lock'), '/repo/Cargo.lock')
+                         if os.path.exists(x) and x != lock), os.path.join(REPO, 'Cargo.lock'))
         if not os.path.exists(lock):
-            shutil.copy(os.path.join(REPO, 'Cargo.lock'), lock)
+            shutil.copy(lock_src, lock)
         cmd = ['cargo', 'build', '--offline']
         if release:
             cmd.append('--release')
@@ -191,7 +215,7 @@ def build_harness(bins, release=False):
         env = {'RUSTFLAGS': '--cfg rustun_verif', 'CARGO_TARGET_DIR': TARGET}
         rc, out = run(cmd, cwd=HARNESS, timeout=3000, env=env)
         if rc != 0 and 'Cargo.lock' in out:
-            shutil.copy(os.path.join(REPO, 'Cargo.lock'), lock)
+            shutil.copy(lock_src, lock)
             rc, out = run(cmd, cwd=HARNESS, timeout=3000, env=env)
         return rc, out
 
@@ -479,7 +503,7 @@ def load_known():
 
 
 def write_replay(prop, kind, payload):
-    d = os.path.join(ROOT, 'replays')
+    d = os.path.join(OUTROOT, 'replays')
     os.makedirs(d, exist_ok=True)
     body = json.dumps(payload, indent=1, sort_keys=True)
     h = hashlib.sha1(body.encode()).hexdigest()[:10]
@@ -501,10 +525,23 @@ def check(prop, tier, seed):
     coverage_suites = []
 
     # 0. translator: the constants of /repo's current source -> coq/Generated/Constants.v (rewritten only when they changed)
-    run([sys.executable, os.path.join(ROOT, 'tools', 'gen_constants.py'), REPO], cwd=ROOT, timeout=120)
-    #    and the functions rs2v.py translates from the current Rust text -> coq/Generated/Code.v
-    run([sys.executable, os.path.join(ROOT, 'tools', 'rs2v.py'), REPO], cwd=ROOT, timeout=120)
     consts = CONSTS.get(prop, [])
+    if not ALT:
+        run([sys.executable, os.path.join(ROOT, 'tools', 'gen_constants.py'), REPO], cwd=ROOT, timeout=120)
+        #    and the functions rs2v.py translates from the current Rust text -> coq/Generated/Code.v
+        run([sys.executable, os.path.join(ROOT, 'tools', 'rs2v.py'), REPO], cwd=ROOT, timeout=120)
+    else:
+        # VERIF_REPO mode: generate beside the cache and compare with the committed files (the agreement lemmas are not re-run)
+        for tool, fname, group in (('gen_constants.py', 'Constants.v', 'Constants'), ('rs2v.py', 'Code.v', 'CodeAgree')):
+            gp = os.path.join(CACHE, 'gen-' + fname)
+            if os.path.exists(gp):
+                os.remove(gp)
+            run([sys.executable, os.path.join(ROOT, 'tools', tool), REPO, gp], cwd=ROOT, timeout=120)
+            same = os.path.exists(gp) and open(gp).read() == open(os.path.join(COQ, 'Generated', fname)).read()
+            if not same and any(cv.startswith(group) for cv in consts):
+                broken.append(dict(obligation='coq/Generated/%s regenerated from this working tree differs from the one the agreement lemmas were checked against (VERIF_REPO mode: lemmas not re-run)' % fname))
+                log('[coq] Generated/%s differs for this working tree' % fname)
+        consts = []
     # 1. theorems
     rc, out = coq_make(['Props/%s.vo' % prop] + cfg.get('extra_vo', []))
     names = theorems_of(prop)
@@ -654,8 +691,8 @@ def check(prop, tier, seed):
         ),
         assumptions=cfg.get('assumptions', []),
         wall_s=round(wall, 2), violations=len(violations))
-    os.makedirs(os.path.join(ROOT, 'evidence'), exist_ok=True)
-    json.dump(ev, open(os.path.join(ROOT, 'evidence', prop + '.json'), 'w'), indent=1)
+    os.makedirs(os.path.join(OUTROOT, 'evidence'), exist_ok=True)
+    json.dump(ev, open(os.path.join(OUTROOT, 'evidence', prop + '.json'), 'w'), indent=1)
     shutil.rmtree(workdir, ignore_errors=True)
     for l in known_lines:
         log(l)
